@@ -2626,3 +2626,198 @@ def flag_sources(cfg, fn_node, name: str):
             out.append(nd.ast.value)
             out += [t for t, _ in plain_guards(cfg, nd.id)]
     return out
+
+
+# ---------------------------------------------------------------------------------------------------------------------
+# indentation is changed line by line only outside string literals
+
+def _is_blanks(e) -> bool:
+    if isinstance(e, ast.BinOp) and isinstance(e.op, ast.Mult):
+        return any(isinstance(s, ast.Constant) and isinstance(s.value, str) and s.value and not s.value.strip(" \t") for s in (e.left, e.right))
+    return False
+
+
+def _indent_ops_in(roots, names):
+    """[(node, kind)] -- the operations below `roots` that read or change the LEADING BLANKS of a line held in one of `names`:
+    blanks put in front of it, `.lstrip()`, `count_line_indents(line)`, blanks emitted on their own"""
+    out = []
+    for st in roots:
+        for x in ast.walk(st):
+            r = x.right if isinstance(x, ast.BinOp) else None
+            if isinstance(r, ast.Call) and isinstance(r.func, ast.Attribute) and r.func.attr == "lstrip":
+                r = r.func.value
+            if isinstance(x, ast.BinOp) and isinstance(x.op, ast.Add) and (_is_blanks(x.left) or _names_blanks(x.left, roots)) and isinstance(r, ast.Name) and r.id in names:
+                out.append((x, "blanks put in front of the line"))
+            elif isinstance(x, ast.Call) and isinstance(x.func, ast.Attribute) and x.func.attr == "lstrip" and isinstance(x.func.value, ast.Name) \
+                    and x.func.value.id in names and not x.args:
+                out.append((x, "the line's leading blanks removed"))
+            elif isinstance(x, ast.Call) and call_name(x) == "count_line_indents" and x.args and isinstance(x.args[0], ast.Name) and x.args[0].id in names:
+                out.append((x, "the line's leading blanks counted"))
+            elif isinstance(x, ast.Call) and call_name(x) == "append" and len(x.args) == 1 and _is_blanks(x.args[0]):
+                out.append((x, "blanks emitted in front of the line"))
+    return out
+
+
+_BLANK_LOCALS: Dict[int, Set[str]] = {}
+
+
+def _names_blanks(e, roots) -> bool:
+    """`prefix + line` where `prefix = " " * n` was bound in the enclosing function (registered by the rule before the walk)"""
+    return isinstance(e, ast.Name) and any(e.id in _BLANK_LOCALS.get(id(r), ()) for r in roots)
+
+
+def _indent_ops(loop: ast.For):
+    names = {x.id for x in ast.walk(loop.target) if isinstance(x, ast.Name)}
+    return _indent_ops_in(loop.body, names)
+
+
+def _expr_conditions(root: ast.AST, target: ast.AST):
+    """[(test, polarity)] that hold when `target`, a node below the expression `root`, is evaluated: the tests of the conditional
+    expressions it stands in, and the earlier operands of an `and` / `or` it is a later operand of"""
+    out = []
+
+    def go(node, acc) -> bool:
+        if node is target:
+            out.extend(acc)
+            return True
+        if isinstance(node, ast.IfExp):
+            return go(node.test, acc) or go(node.body, acc + [(node.test, True)]) or go(node.orelse, acc + [(node.test, False)])
+        if isinstance(node, ast.BoolOp):
+            pol = isinstance(node.op, ast.And)
+            seen = list(acc)
+            for v in node.values:
+                if go(v, seen):
+                    return True
+                seen = seen + [(v, pol)]
+            return False
+        return any(go(c, acc) for c in ast.iter_child_nodes(node))
+
+    go(root, [])
+    return out
+
+
+def _flag_is_off(conds, flag: str) -> bool:
+    """the conditions establish that the name `flag` is false"""
+    def facts(t, pol, depth=0):
+        if depth > 6:
+            return
+        if isinstance(t, ast.UnaryOp) and isinstance(t.op, ast.Not):
+            yield from facts(t.operand, not pol, depth + 1)
+        elif isinstance(t, ast.BoolOp) and ((isinstance(t.op, ast.And) and pol) or (isinstance(t.op, ast.Or) and not pol)):
+            for v in t.values:
+                yield from facts(v, pol, depth + 1)
+        else:
+            yield t, pol
+    return any(isinstance(t, ast.Name) and t.id == flag and not pol for c, p in conds for t, pol in facts(c, p))
+
+
+def string_aware_indent_rule(ctx, res, rule: str, modules, floor: int = 3) -> None:
+    """A physical line that STARTS inside a string literal (the continuation lines of a triple-quoted string) has no indentation: its
+    leading blanks are part of the string's value.  Code that re-indents program text line by line -- when a body is extracted, inlined,
+    moved, or a restructuring's goal is fitted to the place of the match -- must leave such lines alone, and must not count them when it
+    measures the indentation of a block.  So: in the refactoring modules every iteration over lines (a `for` statement or a comprehension)
+    that puts blanks in front of the line, strips or counts its leading blanks -- itself, or through a helper of the module that is handed
+    the line -- (a) takes its lines from the helper that pairs each line with the "starts inside a string" flag (a generator that
+    consults `ignored_regions` and yields 2-tuples), and (b) performs the operation only where that flag was tested and is off (CFG guard,
+    filter of the comprehension, test of a conditional expression, earlier operand of an `and`)."""
+    from ..cfg import CFG
+    idx = ctx.idx
+    helpers = set()
+    for f in idx.functions.values():
+        if f.unit.modname.startswith("rope.refactor") and any(call_name(c) == "ignored_regions" for c in calls_in(f.node)) \
+                and any(isinstance(y, ast.Yield) and isinstance(y.value, ast.Tuple) and len(y.value.elts) == 2 for y in walk_local(f.node)):
+            helpers.add(f.name)
+    mods = [m for m in modules if m in idx.units]
+    if not mods:
+        raise AnalysisError(f"anchor={rule}: none of the modules {modules} found")
+
+    def per_line_helper_ops(f, call: ast.Call, names):
+        """a call `g(line, ...)` of a plain function of the same module whose body works on the leading blanks of that parameter"""
+        if not isinstance(call.func, ast.Name):
+            return []
+        g = next((x for x in idx.functions.values() if x.unit is f.unit and x.cls is None and x.parent is None and x.name == call.func.id), None)
+        if g is None or g.name in helpers:
+            return []
+        params = param_names(g.node)
+        held = {params[i] for i, a in enumerate(call.args) if i < len(params) and isinstance(a, ast.Name) and a.id in names}
+        if not held:
+            return []
+        return [(call, kind + f" (in {g.name})") for _, kind in _indent_ops_in(g.node.body, held)]
+
+    def flag_of(target, it, fnode):
+        if isinstance(it, ast.Call) and call_name(it) == "enumerate" and it.args:
+            it = it.args[0]
+        if isinstance(it, ast.Name):
+            it = _subst_single_locals(fnode, it)
+        if not (isinstance(it, ast.Call) and call_name(it) in helpers):
+            return None
+        tgt = target
+        if isinstance(tgt, ast.Tuple) and len(tgt.elts) == 2 and isinstance(tgt.elts[0], ast.Name) and isinstance(tgt.elts[1], ast.Tuple):
+            tgt = tgt.elts[1]  # for index, (line, flag) in enumerate(...)
+        if isinstance(tgt, ast.Tuple) and len(tgt.elts) == 2 and isinstance(tgt.elts[1], ast.Name):
+            return tgt.elts[1].id
+        return None
+
+    n = 0
+    for f in sorted(idx.functions.values(), key=lambda f: f.qualname):
+        if f.unit.modname not in mods or f.name in helpers:
+            continue
+        fnode = f.node
+        blanks = {t.id for a in walk_local(fnode) if isinstance(a, ast.Assign) and _is_blanks(a.value) for t in a.targets if isinstance(t, ast.Name)}
+        # the iteration sites: (kind of site, target, iterable, roots of the body, filters)
+        sites = []
+        for l in walk_local(fnode):
+            if isinstance(l, ast.For):
+                sites.append(("for", l.target, l.iter, l.body, [], l))
+            elif isinstance(l, (ast.ListComp, ast.GeneratorExp, ast.SetComp)) and len(l.generators) == 1:
+                g = l.generators[0]
+                sites.append(("comp", g.target, g.iter, [l.elt] + list(g.ifs), [(t, True) for t in g.ifs], l))
+        cfg = None
+        per_kind: Dict[str, int] = {}
+        for site_kind, target, it, roots, filters, holder in sites:
+            names = {x.id for x in ast.walk(target) if isinstance(x, ast.Name)}
+            for r in roots:
+                _BLANK_LOCALS[id(r)] = blanks
+            ops = _indent_ops_in(roots, names)
+            for r in roots:
+                for c in ast.walk(r):
+                    if isinstance(c, ast.Call):
+                        ops += per_line_helper_ops(f, c, names)
+            for r in roots:
+                _BLANK_LOCALS.pop(id(r), None)
+            if not ops:
+                continue
+            flag = flag_of(target, it, fnode)
+            for x, kind in ops:
+                n += 1
+                slug = kind.split(" (in ")[0].replace("the line's ", "").replace(" ", "-")
+                per_kind[slug] = per_kind.get(slug, 0) + 1
+                key = f"{f.qualname.split('.', 2)[-1]}|{slug}-only-outside-strings#{per_kind[slug]}"
+                where = f"{f.unit.rel}:{x.lineno}"
+                if flag is None:
+                    res.fail(rule, key, where,
+                             f"{f.qualname.split('.', 2)[-1]}: {kind} for EVERY physical line of the text (`{ast.unparse(it)[:60]}`): a line that starts inside a "
+                             "triple-quoted string is re-indented (or measured) like code -- `return len(\"\"\"a\\nb\"\"\")` in an indented block becomes "
+                             "`\"\"\"a\\n    b\"\"\"`, the value of the literal changes silently", function=f.qualname)
+                    continue
+                conds = list(filters)
+                for r in roots:
+                    if any(y is x for y in ast.walk(r)):
+                        conds += _expr_conditions(r, x)
+                ok = _flag_is_off(conds, flag)
+                if not ok and site_kind == "for":
+                    cfg = cfg or CFG(fnode)
+                    nodes = cfg.node_containing(x)
+                    ok = bool(nodes) and all(_flag_is_off(cfg.guards(nd.id), flag) for nd in nodes)
+                res.add(rule, key, ok, where,
+                        f"{kind} only where the line does not start inside a string" if ok else
+                        f"{f.qualname.split('.', 2)[-1]}: {kind} where `{flag}` was not tested (or is on): the continuation lines of a multi-line "
+                        "string literal are re-indented with the code and the literal's value changes", function=f.qualname)
+    res.floor(rule, "per-line indentation operations", n, floor)
+    # the detector on fixed examples
+    probe = ast.parse("def g(t, k):\n    r = []\n    for i, line in enumerate(split_lines(t, True)):\n        if i:\n            r.append(' ' * k)\n        r.append(line)\n"
+                      "    for line in t.split('\\n'):\n        r.append(' ' * k + line.lstrip())\n        n = count_line_indents(line)\n").body[0]
+    got = sorted(k for l in ast.walk(probe) if isinstance(l, ast.For) for _, k in _indent_ops(l))
+    e = ast.parse("(p + line if i and not s else line)", mode="eval").body
+    if len(got) != 4 or not _flag_is_off(_expr_conditions(e, e.body), "s") or _flag_is_off(_expr_conditions(e, e.orelse), "s"):
+        raise AnalysisError(f"{rule}: the detector of per-line indentation operations no longer sees the fixed examples: {got}")
